@@ -47,6 +47,8 @@ func init() {
 				Edits: []Edit{{File: "driver/generic/sendwithcallbacks.go", Old: "\t\t<-c\n\n\t\treturn nil, fmt.Errorf(\"%w: timeout handling callbacks\", util.ErrTimeoutError)", New: "\t\treturn nil, fmt.Errorf(\"%w: timeout handling callbacks\", util.ErrTimeoutError)"}}},
 			{ID: "C05-chain-cut", Desc: "interactive worker wraps the echo-read error with %v", Rule: "C05/deadline-chain",
 				Edits: []Edit{{File: "channel/sendinteractive.go", Old: "\t\t\tnb, err = readUntilF(ctx, []byte(e.ChannelInput))\n\t\t\tif err != nil {\n\t\t\t\tcr <- &result{b: nil, err: err}", New: "\t\t\tnb, err = readUntilF(ctx, []byte(e.ChannelInput))\n\t\t\tif err != nil {\n\t\t\t\tcr <- &result{b: nil, err: fmt.Errorf(\"event %d: %v\", i, err)}"}}},
+			{ID: "C05-rpc-poller-conn-wide", Desc: "RPC poller bounded by the connection-wide timeout", Rule: "C05/deadline-source",
+				Edits: []Edit{{File: "driver/netconf/rpc.go", Old: "ctx, cancel := context.WithCancel(context.Background())", New: "ctx, cancel := context.WithTimeout(context.Background(), d.Channel.TimeoutOps)"}}},
 			{ID: "C05-auth-timer-removed", Desc: "telnet authentication waits for the worker without a timer", Rule: "C05/deadline-source",
 				Edits: []Edit{{File: "channel/auth.go", Old: "\tt := time.NewTimer(c.TimeoutOps)\n\n\tselect {\n\tcase r := <-cr:\n\t\treturn r.b, r.err\n\tcase <-t.C:\n\t\tc.l.Critical(\"channel timeout during in channel telnet authentication\")\n\n\t\treturn nil, fmt.Errorf(\n\t\t\t\"%w: channel timeout during in channel telnet authentication\",\n\t\t\tutil.ErrTimeoutError,\n\t\t)\n\t}", New: "\tr := <-cr\n\n\treturn r.b, r.err"}}},
 		},
@@ -507,6 +509,7 @@ func checkDeadlineSources(c *Ctx, r *Report) {
 		{"driver/generic", "Driver", "handleCallbacks", "param"},
 	}
 	isOpTimeout := func(v ssa.Value) bool {
+		v = singleStoreValue(v)
 		call, ok := v.(*ssa.Call)
 		if !ok || call.Call.StaticCallee() != getTimeout || len(call.Call.Args) != 2 {
 			return false
@@ -515,6 +518,7 @@ func checkDeadlineSources(c *Ctx, r *Report) {
 		return ok && f.Name() == "Timeout"
 	}
 	isConnWide := func(v ssa.Value) bool {
+		v = singleStoreValue(v)
 		if f, _, ok := fieldLoad(v); ok && f == timeoutOps {
 			return true
 		}
@@ -533,20 +537,30 @@ func checkDeadlineSources(c *Ctx, r *Report) {
 			continue
 		}
 		construct := shortFn(fn) + " deadline"
-		// find the deadline constructor
+		// find the deadline constructors (in the operation and its closures): every one of them bounds part of the
+		// operation, so every one must be derived from the specified timeout
 		var dl *ssa.Call
 		var kind string
-		for _, ci := range callInstrs(fn) {
-			call, ok := ci.(*ssa.Call)
-			if !ok {
-				continue
-			}
-			if o := CalleeObj(call); o != nil && o.Pkg() != nil {
-				switch o.Pkg().Path() + "." + o.Name() {
-				case "context.WithTimeout":
-					dl, kind = call, "ctx"
-				case "time.NewTimer", "time.After":
-					dl, kind = call, "timer"
+		var all []*ssa.Call
+		for _, f := range append([]*ssa.Function{fn}, AnonFuncsDeep(fn)...) {
+			for _, ci := range callInstrs(f) {
+				call, ok := ci.(*ssa.Call)
+				if !ok {
+					continue
+				}
+				if o := CalleeObj(call); o != nil && o.Pkg() != nil {
+					switch o.Pkg().Path() + "." + o.Name() {
+					case "context.WithTimeout":
+						all = append(all, call)
+						if f == fn {
+							dl, kind = call, "ctx"
+						}
+					case "time.NewTimer", "time.After":
+						all = append(all, call)
+						if f == fn {
+							dl, kind = call, "timer"
+						}
+					}
 				}
 			}
 		}
@@ -554,20 +568,25 @@ func checkDeadlineSources(c *Ctx, r *Report) {
 			r.Bad(rule, construct, c.Pos(fn.Pos()), "the operation creates no deadline (context.WithTimeout / time.NewTimer): if the device stops sending, it waits forever")
 			continue
 		}
-		dur := dl.Call.Args[len(dl.Call.Args)-1]
-		okDur := false
-		switch sp.kind {
-		case "op-timeout":
-			okDur = isOpTimeout(dur)
-		case "conn-wide":
-			okDur = isConnWide(dur)
-		case "param":
-			_, okDur = dur.(*ssa.Parameter)
+		okAll := true
+		for _, d := range all {
+			dur := d.Call.Args[len(d.Call.Args)-1]
+			okDur := false
+			switch sp.kind {
+			case "op-timeout":
+				okDur = isOpTimeout(dur)
+			case "conn-wide":
+				okDur = isConnWide(dur)
+			case "param":
+				_, okDur = dur.(*ssa.Parameter)
+			}
+			if !okDur {
+				okAll = false
+				r.Bad(rule, construct, c.Pos(d.Pos()), fmt.Sprintf("a deadline of the operation is not derived from the specified timeout (%s) but from %s: when the two differ (a per-operation timeout longer or shorter than the connection-wide one) part of the operation is cut short or outlives its bound", sp.kind, dur.String()))
+			}
 		}
-		if !okDur {
-			r.Bad(rule, construct, c.Pos(dl.Pos()), fmt.Sprintf("the deadline is not derived from the specified timeout (%s): %s", sp.kind, dur.String()))
-		} else {
-			r.OK(rule, construct, c.Pos(dl.Pos()), sp.kind)
+		if okAll {
+			r.OK(rule, construct, c.Pos(dl.Pos()), fmt.Sprintf("%s (%d deadline constructor(s))", sp.kind, len(all)))
 		}
 		// the wait: for timers, the spawner selects on the timer channel; for ctx, ctx reaches every ctx-taking call
 		if kind == "timer" {
@@ -615,6 +634,8 @@ func checkDeadlineSources(c *Ctx, r *Report) {
 					case org == "param" && f != fn:
 						// parameter of a spawned function: bound at the go statement (checked there)
 						r.OK(rule, cons, c.Pos(ci.Pos()), "context parameter of the worker")
+					case org == "with-timeout" && kind == "ctx" && !ctxDerivedFrom(src, dl):
+						r.Bad(rule, cons, c.Pos(ci.Pos()), "this wait is bounded by a second, independent deadline (a fresh context not derived from the operation's own): the phases' bounds add up, so a device that is slow in one phase and silent in the next keeps the operation for up to twice its timeout")
 					case org == "with-timeout":
 						r.OK(rule, cons, c.Pos(ci.Pos()), "a derived context")
 					default:
@@ -624,6 +645,61 @@ func checkDeadlineSources(c *Ctx, r *Report) {
 			}
 		}
 	}
+}
+
+// singleStoreValue looks through a local cell that is stored exactly once (a variable captured by a closure).
+func singleStoreValue(v ssa.Value) ssa.Value {
+	for i := 0; i < 4; i++ {
+		u, ok := v.(*ssa.UnOp)
+		if !ok || u.Op != token.MUL {
+			return v
+		}
+		var cell ssa.Value = u.X
+		if fv, ok := cell.(*ssa.FreeVar); ok {
+			if b := freeVarBinding(fv); b != nil {
+				cell = b
+			}
+		}
+		a, ok := cell.(*ssa.Alloc)
+		if !ok {
+			return v
+		}
+		var stored ssa.Value
+		n := 0
+		for _, ref := range *a.Referrers() {
+			if st, ok := ref.(*ssa.Store); ok && st.Addr == ssa.Value(a) {
+				stored = st.Val
+				n++
+			}
+		}
+		if n != 1 {
+			return v
+		}
+		v = stored
+	}
+	return v
+}
+
+// ctxDerivedFrom: the WithTimeout/WithCancel call src takes (transitively) the context produced by root as parent.
+func ctxDerivedFrom(src ssa.Value, root *ssa.Call) bool {
+	for i := 0; i < 6; i++ {
+		call, ok := src.(*ssa.Call)
+		if !ok {
+			return false
+		}
+		if call == root {
+			return true
+		}
+		if len(call.Call.Args) == 0 {
+			return false
+		}
+		_, parent := ctxOrigin(call.Call.Args[0], 0)
+		if parent == nil || parent == src {
+			return false
+		}
+		src = parent
+	}
+	return false
 }
 
 // ---- timeout classes ------------------------------------------------------------------------------
